@@ -145,6 +145,26 @@ def gen_cases(rng, tier):
                            distinct=True, stat=400 if tier == "quick" else 2500))
     if tier != "quick":
         cases.append(_case(rng, 110, 140, "dynamic", "by_label", distinct=False, stat=300))
+    # H2. not stratified, many easy samples, few hard ones (the at-least-one corrections practically never trigger):
+    # expected sizes of the hard strata over many seeds
+    for j in range({"quick": 2, "thorough": 8, "search": 4}[tier]):
+        h_p, h_n = rng.choice([(12, 20), (20, 15), (16, 30)])
+        cases.append(_case(rng, h_p, h_n, ["replacement", "single_pass"][j % 2], None, ep=rng.choice([40, 60, 100]) * h_p,
+                           en=rng.choice([30, 50]) * h_n, distinct=True, stat=6000 if tier == "quick" else 12000))
+    # I. call histories: the object has produced samples under other configurations before the observed call
+    def other_cfg(big):
+        return {"method": rng.choice(["dynamic", "replacement"] + (["single_pass"] if big else [])),
+                "strat": rng.choice([None, "by_label"]), "smoothing": False}
+    for j in range({"quick": 6, "thorough": 30, "search": 12}[tier]):
+        big = j % 2 == 0
+        n1, n2 = (rng.randint(100, 112), rng.randint(100, 112)) if big else (rng.randint(3, 9), rng.randint(3, 9))
+        sm = j % 3 != 2
+        c = _case(rng, n1, n2, "dynamic" if big else rng.choice(["dynamic", "replacement"]), rng.choice([None, "by_label"]),
+                  ep=rng.choice([0, 0, 3]), en=rng.choice([0, 2]), smoothing=sm, distinct=sm)
+        c["warm"] = [other_cfg(big) for _ in range(rng.choice([1, 1, 2]))]
+        if j % 3 == 2:   # and the other way round: smoothed first, plain afterwards
+            c["warm"] = [{"method": "dynamic", "strat": None, "smoothing": True}]
+        cases.append(c)
     return cases
 
 
@@ -270,6 +290,10 @@ def run_impl(case):
         return {"stat": k, "sum_pos": tot_p, "sum_neg": tot_n, "sum_ep": tot_ep, "sum_en": tot_en,
                 "mult_pos": list(mp.values()) if len(mp) == len(pos) else None,
                 "mult_neg": list(mn.values()) if len(mn) == len(neg) else None}
+    for w in case.get("warm") or []:
+        # earlier calls on the same object (their samples are discarded): the observed call has to behave as on a fresh object
+        np.random.seed((case["seed"] + 17) % 2**32)
+        s.bootstrap_sample(_config({**w, "ratio": None}))
     np.random.seed(case["seed"])
     raised = None
     with _Recorder(np) as rec:
@@ -378,6 +402,22 @@ def _stat_oracle(case, r):
     fails = []
     k = r["stat"]
     m = resolved_method(case)
+    if case["strat"] is None:
+        # hard stratum size: Binomial(N, h/N)-like (variance <= h) and, for single pass, the sum of the multiplicities
+        # (variance <= h again); the corrections add less than exp(-h) per sample
+        for cls, key, ekey, esrc in (("pos", "sum_pos", "sum_ep", case["ep"]), ("neg", "sum_neg", "sum_en", case["en"])):
+            n = len(case[cls])
+            mean = r[key] / k
+            sd = math.sqrt(2 * n / k)
+            if abs(mean - n) > 8 * sd + 0.05:
+                fails.append(("C11/expected-size", f"{m}, not stratified, over {k} seeds: mean hard {cls} stratum {mean:.3f}, source has "
+                              f"{n} (sd of the mean <= {sd:.3f}): expected stratum size is not the source's"))
+            emean = r[ekey] / k
+            esd = math.sqrt(2 * max(esrc, 1) / k)
+            if abs(emean - esrc) > 8 * esd + 0.05:
+                fails.append(("C11/expected-size", f"{m}, not stratified, over {k} seeds: mean easy {cls} stratum {emean:.3f}, source has "
+                              f"{esrc} (sd of the mean <= {esd:.3f})"))
+        return fails
     for cls, key, ekey, esrc in (("pos", "sum_pos", "sum_ep", case["ep"]), ("neg", "sum_neg", "sum_en", case["en"])):
         n = len(case[cls])
         mean = Fraction(r[key], k)
